@@ -128,6 +128,130 @@ def build_update(rng, codec, role):
             d = b2.d; tags.append('attr_block_dangling_header')
     return d, tags
 
+def enum_c05():
+    """Case classes enumerated on every run (no randomness), one per clause of the property text
+    and per branch of validate_update / the attribute walk; each carries a 'cls' tag."""
+    from gen.c03_enum import fill
+    out = []
+    c4 = {'ext': False, 'two': False, 'nh': False, 'fams': [(E.IPV4, False), (E.IPV6, False), (E.IPV4_VPN, False)]}
+    c2 = dict(c4); c2['two'] = True
+    def add(cls, codec, role, d): out.append({'codec': codec, 'role': role, 'bytes': d, 'tags': [], 'cls': cls})
+    def base(codec, skip=()):
+        w = 2 if codec['two'] else 4
+        return [a for a, c in ((E.attr(0x40, 1, [0]), 1), (E.attr(0x40, 2, E.aspath_value([(2, [65001])], w)), 2), (E.attr(0x40, 3, [192, 0, 2, 1]), 3)) if c not in skip]
+    nl = [E.prefix(24, [10, 0, 0])]
+    wd = [E.prefix(8, [9])]
+    mp = lambda: E.attr(0x80, 14, E.mp_reach_value(E.IPV6, fill(16), [E.prefix(32, [0x20, 1, 0xd, 0xb8])]))
+    mpu = lambda: E.attr(0x80, 15, E.mp_unreach_value(E.IPV6, [E.prefix(16, [0x20, 2])]))
+    good = {1: [0], 2: None, 3: [192, 0, 2, 1], 4: [0, 0, 0, 5], 5: [0, 0, 0, 100], 6: [], 7: fill(8), 8: fill(4), 9: fill(4), 10: fill(4), 16: fill(8),
+            17: E.aspath_value([(2, [70000])], 4).d, 18: fill(8), 32: fill(12), 26: fill(11), 40: fill(7), 29: fill(9), 23: fill(12)}
+    # every attribute type code 0..255 x the four optional/transitive flag classes (recognised, unrecognised well-known, unrecognised optional)
+    for code in range(256):
+        if code in (14, 15): continue
+        for fl in (0x00, 0x40, 0x80, 0xc0):
+            for codec in (c4,):
+                v = good.get(code, fill(3))
+                if v is None: v = E.aspath_value([(2, [65001])], 4).d
+                attrs = base(codec, skip=(code,)) + [E.attr(fl, code, v)]
+                add('every_code_x_flag_class', codec, ROLES[code % len(ROLES)], E.update(wd, attrs, nl).d)
+    # every recognised code x every high nibble of the flags octet (partial and extended-length bits included), legacy and MP announcement
+    for code in KNOWN:
+        if code in (14, 15): continue
+        for hi in range(16):
+            for codec in (c4, c2):
+                v = good[code]
+                if v is None: v = E.aspath_value([(2, [65001])], 2 if codec['two'] else 4).d
+                a = cat([B([hi << 4, code]), B(E.be(len(v), 2) if hi & 1 else [len(v)]), B(v)])
+                add('known_code_x_flags_nibble', codec, 'ebgp', E.update(wd, base(codec, skip=(code,)) + [a], nl).d)
+                if hi in (4, 8, 12, 0): add('known_code_x_flags_nibble_mp', codec, 'ibgp', E.update([], base(codec, skip=(code, 3)) + [a, mp()], []).d)
+    # MP attributes x every flags nibble
+    for hi in range(16):
+        for code, v in ((14, E.mp_reach_value(E.IPV6, fill(16), [E.prefix(32, [0x20, 1, 0xd, 0xb8])]).d), (15, E.mp_unreach_value(E.IPV6, [E.prefix(16, [0x20, 2])]).d)):
+            a = cat([B([hi << 4, code]), B(E.be(len(v), 2) if hi & 1 else [len(v)]), B(v)])
+            add('mp_attr_x_flags_nibble', c4, 'ebgp', E.update(wd, base(c4, skip=(3,)) + [a], []).d)
+    # omission of each mandatory attribute x (legacy NLRI only, MP_REACH only, both, withdrawals only)
+    for skip in ((), (1,), (2,), (3,), (1, 2), (1, 2, 3)):
+        for shape in ('legacy', 'mp', 'both', 'withdraw_only', 'mp_unreach_only'):
+            attrs = base(c4, skip=skip)
+            if shape in ('mp', 'both'): attrs = attrs + [mp()]
+            if shape == 'mp_unreach_only': attrs = attrs + [mpu()]
+            add('mandatory_omission_x_shape', c4, 'ebgp', E.update(wd, attrs, nl if shape in ('legacy', 'both') else []).d)
+    # NEXT_HOP length 0..33
+    for n in range(0, 34):
+        add('nexthop_length', c4, 'ebgp', E.update([], base(c4, skip=(3,)) + [E.attr(0x40, 3, fill(n))], nl).d)
+        if n in (0, 3, 4, 5, 16, 32): add('nexthop_length_mp_only', c4, 'ebgp', E.update([], base(c4, skip=(3,)) + [E.attr(0x40, 3, fill(n)), mp()], []).d)
+    # ORIGIN values, AS_PATH shapes (zero-length segment, every segment type, confed), both widths
+    for v in (0, 1, 2, 3, 255):
+        add('origin_value', c4, 'ebgp', E.update([], base(c4, skip=(1,)) + [E.attr(0x40, 1, [v])], nl).d)
+    for codec in (c4, c2):
+        w = 2 if codec['two'] else 4
+        for segs in ([], [(2, [])], [(2, [1]), (2, [])], [(0, [1])], [(1, [1])], [(3, [1])], [(4, [1])], [(5, [1])], [(2, [1]), (1, [2, 3]), (3, [4])], [(2, list(range(1, 256)))]):
+            add('aspath_shape', codec, 'ebgp', E.update([], base(codec, skip=(2,)) + [E.attr(0x40, 2, E.aspath_value(segs, w))], nl).d)
+        for d in (-1, 1):
+            v = E.aspath_value([(2, [1, 2])], w).d
+            v = v[:d] if d < 0 else v + [0]
+            add('aspath_shape', codec, 'ebgp', E.update([], base(codec, skip=(2,)) + [E.attr(0x40, 2, v)], nl).d)
+    # every role x each iBGP-only attribute present, and all three
+    for role in ROLES:
+        for codes in ((5,), (9,), (10,), (5, 9, 10), ()):
+            attrs = base(c4) + [E.attr(KNOWN[k], k, good[k]) for k in codes]
+            add('role_x_ibgp_only_attrs', c4, role, E.update([], attrs, nl).d)
+            add('role_x_ibgp_only_attrs', c4, role, E.update([], base(c4, skip=(3,)) + [E.attr(KNOWN[k], k, good[k]) for k in codes] + [mp()], []).d)
+    # two errors together: every pair (fatal, discardable, none) and positions first/last
+    fatal = E.attr(0xc0, 8, fill(3)); disc = E.attr(0x80, 4, fill(3)); as4bad = E.attr(0xc0, 17, [2]); unk_wk = E.attr(0x40, 99, [1]); unk_opt = E.attr(0x80, 99, [1]); unk_tr = E.attr(0xc0, 99, [1])
+    for x in (fatal, disc, as4bad, unk_wk, unk_opt, unk_tr):
+        for y in (None, fatal, disc, as4bad):
+            for first in (True, False):
+                extra = [a for a in (x, y) if a is not None]
+                attrs = (extra + base(c4)) if first else (base(c4) + extra)
+                add('error_pairs_x_position', c4, 'ebgp', E.update(wd, attrs + [mpu()], nl).d)
+    # duplicates of every code (second copy malformed / well-formed), MP twice
+    for code in (1, 2, 3, 4, 5, 8, 17):
+        v = good[code] if good[code] is not None else E.aspath_value([(2, [65001])], 4).d
+        a = E.attr(KNOWN[code], code, v); bad = E.attr(KNOWN[code], code, v + [1, 2, 3])
+        for second in (a, bad):
+            add('duplicate_attr', c4, 'ebgp', E.update([], base(c4, skip=(code,)) + [a, second], nl).d)
+            add('duplicate_attr', c4, 'ebgp', E.update([], base(c4, skip=(code,)) + [bad, a], nl).d)
+    add('duplicate_mp', c4, 'ebgp', E.update([], base(c4) + [mp(), mp()], nl).d)
+    add('duplicate_mp', c4, 'ebgp', E.update([], base(c4) + [mpu(), mpu()], nl).d)
+    # attribute block ending inside an attribute, with legacy NLRI / without
+    for tail in ([0x40], [0x40, 4], [0x50, 4], [0x50, 4, 0], [0x80, 4, 4], [0x80, 4, 4, 1, 2, 3], [0xc0, 8, 0], [0x80, 14, 4, 0, 2, 1]):
+        add('attr_block_truncated', c4, 'ebgp', E.update(wd, base(c4) + [B(tail)], nl).d)
+        add('attr_block_truncated', c4, 'ebgp', E.update(wd, base(c4, skip=(3,)) + [mp(), B(tail)], []).d)
+    # session reset only if it must: NLRI that cannot be parsed / family not negotiated / MP structure
+    add('reset_cases', c4, 'ebgp', E.update([], base(c4), [B([33, 1, 2, 3, 4, 5])]).d)
+    add('reset_cases', c4, 'ebgp', E.update([B([33, 1, 2, 3, 4, 5])], [], []).d)
+    add('reset_cases', c4, 'ebgp', E.update([], base(c4, skip=(3,)) + [E.attr(0x80, 14, E.mp_reach_value(E.IPV6_MC, fill(16), [E.prefix(8, [1])]))], []).d)
+    add('reset_cases', c4, 'ebgp', E.update([], base(c4, skip=(3,)) + [E.attr(0x80, 14, [0, 2, 1])], []).d)
+    add('reset_cases', c4, 'ebgp', E.update([], base(c4, skip=(3,)) + [E.attr(0x80, 14, E.mp_reach_value(E.IPV6, fill(5), [E.prefix(8, [1])]))], []).d)
+    # families modelled since round 3: a faulty attribute next to their MP_REACH / MP_UNREACH (must be withdrawn),
+    # a missing mandatory attribute, and NLRI of theirs that cannot be parsed (reset allowed)
+    fam_nlri = {E.EVPN: E.evpn(2, E.evpn_t2(ip=[192, 0, 2, 9])), E.RTC: E.rtc(96, fill(12)), E.IPV4_SRP: E.srp(96, 1, 2, [1, 2, 3, 4]),
+                E.IPV4_FS: E.flowspec([E.fs_prefix4(1, 24, [10, 0, 0]), E.fs_ops(3, [(1, 6)])]),
+                E.IPV6_FS: E.flowspec([E.fs_prefix6(1, 32, 0, [0x20, 1, 0xd, 0xb8])]),
+                E.IPV4_FSVPN: E.flowspec([E.fs_ops(5, [(1, 80)])], rd=E.RD0),
+                E.IPV4_MUP: E.mup(1, E.mup_isd(24, [10, 0, 0])),
+                E.LS: E.ls_nlri(3, E.ls_head() + E.ls_node_desc([E.ls_tlv(512, [0, 0, 0xfd, 0xe9])]) + E.ls_tlv(265, [24, 10, 0, 1]))}
+    for fam, n in fam_nlri.items():
+        cf = {'ext': False, 'two': False, 'nh': False, 'fams': [(E.IPV4, False), (fam, False)]}
+        nh = [] if (fam & 0xff) in (133, 134) else [10, 0, 0, 1]
+        mr = lambda x: E.attr(0x80, 14, E.mp_reach_value(fam, nh, [x]))
+        mu = lambda x: E.attr(0x80, 15, E.mp_unreach_value(fam, [x]))
+        for extra in ([], [fatal], [disc], [unk_wk], [E.attr(0x40, 5, fill(3))]):
+            add('new_family_x_attr_error', cf, 'ebgp', E.update([], base(cf, skip=(3,)) + extra + [mr(n)], []).d)
+            add('new_family_x_attr_error', cf, 'ibgp', E.update([], base(cf, skip=(3,)) + extra + [mr(n), mu(n)], []).d)
+        for skip in ((1, 3), (2, 3), (1, 2, 3)):
+            add('new_family_missing_mandatory', cf, 'ebgp', E.update([], base(cf, skip=skip) + [mr(n)], []).d)
+        add('new_family_flag_error_mp', cf, 'ebgp', E.update([], base(cf, skip=(3,)) + [E.attr(0xc0, 14, E.mp_reach_value(fam, nh, [n]))], []).d)
+        add('new_family_flag_error_mp', cf, 'ebgp', E.update([], [E.attr(0x00, 15, E.mp_unreach_value(fam, [n]))], []).d)
+        add('new_family_unparsable_nlri', cf, 'ebgp', E.update([], base(cf, skip=(3,)) + [mr(B(n.d[:-1]))], []).d)
+        add('new_family_unparsable_nlri', cf, 'ebgp', E.update([], [mu(B(n.d + [255]))], []).d)
+        add('new_family_nexthop_forms', cf, 'ebgp', E.update([], base(cf, skip=(3,)) + [E.attr(0x80, 14, E.mp_reach_value(fam, [], [n]))], []).d)
+        add('new_family_nexthop_forms', cf, 'ebgp', E.update([], base(cf, skip=(3,)) + [E.attr(0x80, 14, E.mp_reach_value(fam, fill(16), [n]))], []).d)
+    for nh in ([0] * 8 + [1, 1, 1, 1], [0] * 8 + fill(16), fill(4), fill(16), fill(32)):
+        add('vpn_nexthop_forms', c4, 'ebgp', E.update([], base(c4, skip=(3,)) + [E.attr(0x80, 14, E.mp_reach_value(E.IPV4_VPN, nh, [E.vpn([100], [0, 0, 0, 1, 0, 0, 0, 1], 24, [10, 0, 1])]))], []).d)
+    return out
+
 class Prop:
     pid = 'C05'
     props_file = 'Props/C05.v'
@@ -148,7 +272,7 @@ class Prop:
                     'the is_ebgp argument is computed from the peer role in PeerSession::run_select; that one-line mapping is covered by a unit test in the repository '
                     '(received_from_external_peer_by_role), not by this correspondence run',
                     'PeerSession::rx_update (loop detection, default LOCAL_PREF injection, prefix limits) is abstracted to insert/remove per NLRI (Model/Validate.v apply_vmsg)']
-    assumptions = ['the families whose NLRI decoders are not modelled do not occur in the generated codecs',
+    assumptions = [
                    'syntax of AIGP, PREFIX_SID, BGP-LS and TUNNEL_ENCAP values is not judged (the receive path stores them as bytes)']
 
     def __init__(self):
@@ -182,7 +306,7 @@ class Prop:
     # ---- generation
     def gen_cases(self, rng, tier):
         n = 3000 if tier == 'quick' else 20000
-        out = []
+        out = enum_c05()
         c4 = {'ext': False, 'two': False, 'nh': False, 'fams': [(E.IPV4, False), (E.IPV6, False)]}
         c2 = {'ext': False, 'two': True, 'nh': False, 'fams': [(E.IPV4, False), (E.IPV6, False)]}
         # deterministic sweep: every recognised attribute x every small value length x flag patterns, legacy and MP announcements
@@ -221,6 +345,8 @@ class Prop:
         return hxpacket.run_both('C05', [self.case_to_val(c) for c in cases])
 
     def run_model(self, cases, tier):
+        from gen.c03 import _unlimit_stack
+        _unlimit_stack()
         pre = ('From RB Require Import Base.Val Base.Bytes Model.Stream Model.Wire Model.WireNlri Model.WireUpdate Model.WireMsg '
                'Spec.Rfc7606 Model.Validate.\nOpen Scope N_scope.')
         res, err = coqrun.eval_terms('C05', pre, [self.case_to_coq(c) for c in cases])
@@ -304,6 +430,7 @@ class Prop:
         o = obs[0]
         t = list(dict.fromkeys([x.split('_')[0] if x.startswith('sweep') else x for x in c.get('tags', [])]))[:6]
         t.append('role_' + c['role'])
+        t.append('class_' + c.get('cls', 'random'))
         if o == PANIC: return t + ['panic']
         if o[0] in (2, 3): t.append('reset')
         elif o[0] == 0:
